@@ -97,7 +97,8 @@ def loop_facts(fn, hash_t, cap_t):
             if c[1] in ("Gt", "Ge") and ".psl" in show(c[3]) and ".psl" not in show(c[2]):
                 c = ("bin", {"Gt": "Lt", "Ge": "Le"}[c[1]], c[3], c[2]) + tuple(c[4:])
             elif c[1] in ("Gt", "Ge") and ".psl" not in show(c[3]) and ".psl" in show(c[2]):
-                pass
+                # `stored.psl >= walked` as the test to *go on* is the negation of the exit test `stored.psl < walked`
+                c = ("bin", {"Ge": "Lt", "Gt": "Le"}[c[1]], c[2], c[3]) + tuple(c[4:])
             tests.add(canon(fn, c, roles))
     out["cmp"] = sorted(tests)
     return out
